@@ -31,6 +31,8 @@ WORK = os.path.join(os.path.dirname(os.path.dirname(os.path.dirname(os.path.absp
 
 
 def generate(rng, n, tier):
+    import shutil
+    shutil.rmtree(os.path.join(os.path.dirname(WORK), "logs"), ignore_errors=True)      # log files of logging monitors of earlier runs
     for _ in range(n):
         c = G.gen_script(rng, nops=(2, 5), p_mid=0.3, solvers=("DE", "DE2", "NM", "POW") if rng.random() < 0.6 else L.SOLVERS)
         ops = c["ops"]
@@ -57,6 +59,9 @@ def generate(rng, n, tier):
             if firsts:
                 ops.insert(firsts[0] + 1, dict(op="SetEvalMonitor", new=False))
                 ops.insert(firsts[0] + 2, dict(op="Step", cb=False))
+        if rng.random() < 0.12 and not any(o["op"] == "SetStepMonitor" for o in ops):
+            # a logging step monitor with a cost multiplier: its records must survive a save / copy as they are
+            ops.insert(0, dict(op="SetStepMonitor", new=False, log_k=rng.choice([1000.0, 0.5])))
         c["pre"], c["post"] = ops, tail
         del c["ops"]
         c["action"] = rng.choice(["deepcopy", "saveload", "dill", "savefreq"])
@@ -94,6 +99,11 @@ def generate(rng, n, tier):
             c["post"] = []
             c["action"] = "midsolve"
             c["every"] = rng.choice([2, 3])
+        if c["solver"] == "POW" and c["action"] == "savefreq" and rng.random() < 0.5 and any(o["op"] == "Step" for o in c["pre"]):
+            # the prefix ends with a penalty installed in the middle of the run: Powell's Finalize flushes its pending record and dumps
+            c["pre"] = c["pre"] + [dict(op="SetPenalty", pen=dict(kind="quad", c=G.grid(rng, -1, 1), w=10.0))]
+            if not any(o["op"] == "Step" for o in c["post"]):
+                c["post"] = c["post"] + [dict(op="Step", cb=False), dict(op="Step", cb=False)]
         G.fix_deferred(c["pre"]); G.fix_deferred(c["post"])
         yield c
 
@@ -152,7 +162,20 @@ def _run(case):
                 # only if the last operation of the prefix executed one and did not stop (a stop finalizes the original)
                 # (when it did stop, the dump forced at the stop is the finalized solver: comparable too)
                 last_ok = len(pre_trace) >= 2 and pre_trace[-1]["nstep"] > pre_trace[-2]["nstep"]
-                s1 = LoadSolver(fname) if (os.path.exists(fname) and last_ok) else None
+                # Powell also dumps when a Set* call finalizes it in the middle of a run (its pending record is flushed): that file is the solver
+                # as that call left it
+                if kind == "POW" and case["pre"] and case["pre"][-1]["op"] in ("SetPenalty", "SetConstraints") and not case["pre"][-1].get("defer") \
+                   and len(pre_trace) >= 2 and not pre_trace[-1]["live"] and pre_trace[-2]["live"] and pre_trace[-1]["nsm"] > pre_trace[-2]["nsm"]:
+                    last_ok = True
+                # (restored from a COPY of the restart file: the restored solver then dumps to the copy, not to the original's file)
+                bak = fname + ".bak"
+                if os.path.exists(fname) and last_ok:
+                    import shutil as _sh
+                    _sh.copyfile(fname, bak)
+                    s1 = LoadSolver(bak)
+                    state_ok = (getattr(s1, "_state", None) == bak)
+                else:
+                    s1 = None
             saved_gens = None
             if s1 is not None and a == "savefreq" and int(s1.generations) != at["gens"]:
                 s1 = None      # the last dump is of an earlier generation (Powell logs a generation every other phase)
@@ -198,17 +221,23 @@ def _run(case):
             out["snap1_at"] = snap1_at
             # ---- run the same tail on the snapshot, from the same RNG state
             random.setstate(rng_state[0]); np.random.set_state(rng_state[1])
+            import hashlib as _hl
+            _digest = lambda pth: _hl.sha1(open(pth, "rb").read()).hexdigest() if os.path.exists(pth) else None
+            h_before = _digest(fname) if a == "savefreq" else None
             t1, r1 = [], []
             for k, op in enumerate(case["post"]):
                 res, msg = L.apply_op(s1, rec1, op, n0 + k, tag0)
                 r1.append(res); t1.append(L.snapshot(s1, rec1, msg))
+            if a == "savefreq":
+                out["restart_file"] = dict(state_ok=bool(state_ok), original_file_untouched=(_digest(fname) == h_before))
             out.update(t1=t1, r1=r1, orig_untouched=view(L.snapshot(s0, rec0, None)) == view(final0),
                        p1=L.pack(rec1, pre_trace + t1, pre_res + r1))
             return out
     finally:
         L.REG.pop(tag0, None); L.REG.pop(tag1, None)
-        if os.path.exists(fname):
-            os.remove(fname)
+        for pth in (fname, fname + ".bak"):
+            if os.path.exists(pth):
+                os.remove(pth)
 
 
 def _run_midsolve(case, s0, rec0, tag0, tag1, fname):
@@ -276,6 +305,10 @@ def oracle(case, out):
             f.append(SC.fail("copy_independent", site, "original-changed-by-snapshot:periodic-dump"))
         return f
     a = out["action"]
+    rf = out.get("restart_file")
+    if rf and not (rf["state_ok"] and rf["original_file_untouched"]):
+        f.append(SC.fail("copy_independent", site, "restored-solver-writes-the-original-restart-file", rf))
+        return f
     if out.get("saved_changed"):
         f.append(SC.fail("copy_independent", site, "original-changed-by-saving", dict(fields=out["saved_changed"])))
         return f
